@@ -413,6 +413,30 @@ fn exhaustive(ctx: &Ctx, focus: &str, col: &Collector) {
 pub fn run(ctx: &Ctx, col: &Collector) -> Meta {
     let focus = ctx.id.clone();
     exhaustive(ctx, &focus, col);
+    // one fixed large structure (630 rights, names longer than 127 bytes)
+    {
+        let ps = |g: Vec<Vec<(u16, Vec<u16>)>>, shape: u64| PolicySpec { broadcast: false, groups: g, shape };
+        let big = CoverCase {
+            spec: big_spec(),
+            users: vec![
+                ps(vec![vec![(0, vec![30000])]], 2),
+                ps(vec![vec![(0, vec![12000]), (20000, vec![0]), (60000, vec![40000])]], 3),
+                ps(vec![vec![(40000, vec![65000])], vec![(20000, vec![30000, 50000])]], 4),
+            ],
+            encs: vec![
+                EncRecipe::Derived { user: 0, clause: 0, variant: 1, pos: 0, extra: 20000 },
+                EncRecipe::Derived { user: 30000, clause: 0, variant: 0, pos: 0, extra: 0 },
+                EncRecipe::Derived { user: 30000, clause: 0, variant: 4, pos: 0, extra: 0 },
+                EncRecipe::Derived { user: 60000, clause: 0, variant: 2, pos: 0, extra: 9000 },
+                EncRecipe::Free(ps(vec![vec![(0, vec![0, 20000, 60000]), (20000, vec![0, 40000])]], 6)),
+            ],
+        };
+        col.eval(1);
+        if let Err(f) = crate::runner::guarded(|| check_case(&focus, &big, col)) {
+            report_fail(col, "cover", f, serde_json::to_value(&big).unwrap());
+        }
+        col.class("large-structure-case");
+    }
     let thorough = ctx.thorough;
     run_cases(&ctx.run_cfg(ctx.n(1200, 12_000), 1), "cover", || strategy(thorough), col, |c, col| check_case(&focus, c, col));
     let need: &[&str] = if focus == "C01" {
